@@ -1555,7 +1555,8 @@ func c10IDs(c *Ctx) {
 			}
 			found = true
 			arg := CC(in).Args[argIdx]
-			isIncr := func(v ssa.Value) bool {
+			var isIncr func(v ssa.Value) bool
+			isIncr = func(v ssa.Value) bool {
 				cl, _ := CallOfValue(v)
 				if cl == nil {
 					return false
@@ -1570,11 +1571,41 @@ func c10IDs(c *Ctx) {
 				}
 				return false
 			}
+			// ... or the locked counter as read after the increment made in the same function, the lock still held
+			isIncrCall := isIncr
+			isIncr = func(v ssa.Value) bool {
+				if isIncrCall(v) {
+					return true
+				}
+				// a result spilled for a deferred Unlock: what was stored into the result cell
+				if u, isU := v.(*ssa.UnOp); isU && u.Op == token.MUL {
+					if a, isA := u.X.(*ssa.Alloc); isA {
+						sts := StoresTo(a)
+						if len(sts) == 0 {
+							return false
+						}
+						for _, st := range sts {
+							if !isIncr(Strip(st.Val)) {
+								return false
+							}
+						}
+						return true
+					}
+				}
+				fv, _ := FieldOf(v)
+				ld, isLd := v.(ssa.Instruction)
+				if fv == nil || !lockedCounters[fv] || !isLd {
+					return false
+				}
+				sts, before := ReachingFieldStores(ld, "", fv.Name())
+				ls := NewLocksets(ld.Parent(), func(v ssa.Value) bool { p, n := NamedOf(v.Type()); return p == "sync" && (n == "Mutex" || n == "RWMutex") })
+				return !before && len(sts) > 0 && ls.Before[ld].W
+			}
 			// the increment itself, or a helper of the package that returns it (nextID())
 			ok := true
 			for _, r := range Roots(arg, false) {
 				for _, t := range ThroughReturns(r) {
-					if !DerivesOnly(t, false, isIncr) {
+					if !isIncr(Strip(t)) && !DerivesOnly(t, false, isIncr) {
 						ok = false
 					}
 				}
